@@ -5,8 +5,13 @@
 mod ctx;
 mod expo;
 mod fam;
+mod p_desc;
 mod p_encode;
 mod p_gather;
+mod p_hist;
+mod p_names;
+mod p_registry;
+mod p_vec;
 mod spec;
 
 use ctx::Ctx;
@@ -22,6 +27,16 @@ fn run_case(cx: &mut Ctx) {
             cx.feeder = false;
         }
         "C07" => p_gather::run_case(cx, false),
+        "C05" => p_vec::run_case(cx),
+        "C15" => p_desc::run_case(cx),
+        "C08" => p_hist::run_case(cx),
+        "C06" => p_registry::run_case(cx),
+        "C09" => {
+            p_names::run_case(cx);
+            cx.feeder = true;
+            p_gather::run_case(cx, false);
+            cx.feeder = false;
+        }
         "C14" => {
             p_gather::run_case(cx, true);
             p_gather::run_case(cx, false);
